@@ -149,10 +149,10 @@ def modifyPad (s : RunState) (g : Nat) (f : Pad → Pad) : RunState :=
 def showStateKind (st : AState) (k : Kind) : String := "r " ++ showState st ++ " " ++ ckindCode k
 
 /-- add items (input bindings) to the current action: each gets the block's `each` modifiers / conditions appended -/
-def addItems (s : RunState) (bs : List InputBind) : Option RunState :=
+def addItems (s : RunState) (item : BSet) : Option RunState :=
   let em := s.eachMods.map (fun p => p.2.toMod p.1)
   let ec := s.eachConds.map (fun p => p.2.toCond p.1)
-  s.modifyAct (fun ab => { ab with bindings := ab.bindings ++ bs.map (fun b => { b with mods := b.mods ++ em, conds := b.conds ++ ec }) })
+  s.modifyAct (fun ab => ab.to (.condsEach (.modsEach item em) ec))
 
 /-- execute one parsed command; `none` = rejected (e.g. `amod` without a current action) -/
 def exec (s : RunState) (line : String) : Cmd → Option RunState
@@ -163,12 +163,12 @@ def exec (s : RunState) (line : String) : Cmd → Option RunState
   | .route _ => some s
   | .emod id m => some { s with eachMods := s.eachMods ++ [(id, m)] }
   | .econd id c => some { s with eachConds := s.eachConds ++ [(id, c)] }
-  | .presetCardinal n e w' x => s.addItems (cardinalBinds n e w' x)
-  | .presetBidir p' n => s.addItems (bidirBinds p' n)
-  | .presetStick r => s.addItems (stickBinds r)
+  | .presetCardinal n e w' x => s.addItems (cardinalSet n e w' x)
+  | .presetBidir p' n => s.addItems (bidirSet p' n)
+  | .presetStick r => s.addItems (.stick r)
   | .amod id m => s.modifyAct (fun ab => { ab with mods := ab.mods ++ [m.toMod id] })
   | .acond id c => s.modifyAct (fun ab => { ab with conds := ab.conds ++ [c.toCond id] })
-  | .inp i => s.addItems [{ input := i }]
+  | .inp i => s.addItems (.single { input := i })
   | .imod id m =>
     let n := s.eachMods.length
     s.modifyAct (fun ab => modifyLastInput ab (fun b =>
